@@ -4,7 +4,8 @@ Modes of a case:
   "dump":   one of the shipped old-format files (test/mitmproxy/data/dumpfile-*.mitm and data/flows/*.mitm; format
             versions (0,11) (0,18) 7 10 11 18 20 21), decoded into its tnetstring records, optionally with field-level
             mutations that keep the historical shape (request/response body, path, method, port, host, header values,
-            status, reason, client address/timestamp, TCP/WebSocket message contents), re-encoded and loaded.
+            status, reason, client address/timestamp, TCP/WebSocket message contents, and for formats <= 8 the per-message
+            replay markers request.is_replay / response.is_replay in all four combinations), re-encoded and loaded.
             Oracle: loading succeeds; one flow per record, in order; every flow is a *valid* current flow (each attribute
             has its declared type — flowgen.type_errors); every mutated field shows up at the corresponding attribute of the
             corresponding flow; Flow.from_state(get_state()).get_state() == get_state(); save -> load reproduces the state.
@@ -134,6 +135,31 @@ def _apply_dump_mut(recs, op, expect):
                 expect.append((i, "request." + attr, lambda f: getattr(f.request.data, attr), val))
             else:
                 expect.append((i, "response." + attr, lambda f: getattr(f.response.data, attr), val))
+        return True
+    if what == "replay":
+        # formats <= 8 mark replays per message: request.is_replay (the request was re-sent by client replay) and
+        # response.is_replay (the response was served by server replay).  The current format has one flow-level
+        # marker; its expected value is derived here from the OLD format's meaning, not from compat.py.
+        ver = _get(r, "version")
+        if typ != "http" or not (isinstance(ver, list) or (isinstance(ver, int) and ver <= 8)):
+            return False
+        rq, rs = _get(r, "request"), _get(r, "response")
+        if not isinstance(rq, dict) or _k(rq, "is_replay") is None:
+            return False
+        bytes_keys = isinstance(_k(rq, "is_replay"), bytes)
+        req_flag, resp_flag = bool(op[2]), bool(op[3]) and isinstance(rs, dict)
+        rq[_k(rq, "is_replay")] = req_flag
+        if isinstance(rs, dict):
+            rs[_k(rs, "is_replay") or (b"is_replay" if bytes_keys else "is_replay")] = resp_flag
+        if req_flag and resp_flag:
+            allowed = ("request", "response")   # both happened; the single new marker can name only one of them
+        elif req_flag:
+            allowed = ("request",)
+        elif resp_flag:
+            allowed = ("response",)
+        else:
+            allowed = (None,)
+        expect.append((i, "is_replay", lambda f: f.is_replay if f.is_replay not in allowed else allowed[0], allowed[0]))
         return True
     if what == "client":
         if typ == "websocket":
@@ -420,6 +446,8 @@ _dump_mut = st.one_of(
     st.tuples(st.just("client"), _rec, st.just("timestamp_start"), fg.ts),
     st.tuples(st.just("client"), _rec, st.just("address"), st.tuples(_hostname, fg.port).map(list)),
     st.tuples(st.just("msg"), _rec, st.integers(0, 30), st.binary(max_size=12).filter(lambda b: True)),
+    st.tuples(st.just("replay"), _rec, st.booleans(), st.booleans()),
+    st.tuples(st.just("replay"), _rec, st.booleans(), st.booleans()),
 ).map(list)
 _flags = st.fixed_dictionaries({"state": st.sampled_from([0, 3]), "ext_list": st.booleans(), "drop_transport": st.booleans(),
                                 "sni_true": st.booleans(), "bytes_host": st.booleans(), "drop_backup": st.booleans(),
@@ -433,11 +461,15 @@ def strategy(ctx):
     # the seven dumpfile-* files (formats 0.11 .. 20) are drawn three times as often as the data/flows/*.mitm files
     dump = st.fixed_dictionaries({"mode": st.just("dump"), "file": st.sampled_from(list(range(7)) * 3 + list(range(7, len(FILES)))),
                                   "muts": st.lists(_dump_mut, max_size=4)})
+    # formats <= 8 (per-message replay markers): the four marker combinations on the files that have them
+    replay = st.tuples(st.just("replay"), _rec, st.booleans(), st.booleans()).map(list)
+    dump_replay = st.fixed_dictionaries({"mode": st.just("dump"), "file": st.sampled_from([0, 1, 2, 3]),
+                                         "muts": st.tuples(replay, st.lists(_dump_mut, max_size=2)).map(lambda t: [t[0]] + t[1])})
     down_old = st.fixed_dictionaries({"mode": st.just("down"), "flow": old_kinds, "version": st.sampled_from([12, 13, 14, 15, 16, 17]), "flags": _flags})
     down_new = st.fixed_dictionaries({"mode": st.just("down"), "flow": all_kinds, "version": st.sampled_from([18, 19, 20, 21]), "flags": _flags})
     future = st.fixed_dictionaries({"mode": st.just("future"), "flow": fg.flows(small=True, backup=False, pool=pool),
                                     "version": st.one_of(st.integers(22, 40), st.sampled_from([100, 10 ** 6, 2 ** 70, 0, 1, 2, 3, -1, -21]))})
-    return st.one_of(dump, dump, down_old, down_old, down_new, down_new, future)
+    return st.one_of(dump, dump, dump_replay, down_old, down_old, down_new, down_new, future)
 
 
 def check_case(case, ctx):
